@@ -321,7 +321,7 @@ MUTATORS = ["{v}.append(0)\n{v}.append(1)\n", "{v}.append(7)\n", "{v}.remove(1)\
             "def grow():\n    {v}.append(3)\ngrow()\n", "{v} = {v} * 2\n", "{v}.append(len({v}))\n", "w2 = {v}\nw2.append(8)\n", "{v} = 5\n", "{v} += 1\n"]
 READERS = ["m = len({v})\nmon.write(m)\n", "led.flash_pattern({v}, 100)\n", "led.flash_pattern({v})\n", "mon.write({v}[0])\n", "for i in range(len({v})):\n    led.toggle()\n",
            "m = len({v}) + 1\nsleep(m)\n", "lcd.glyph(0, {v})\n", "mon.write({v})\n", "sleep({v})\n", "k = {v}\nmon.write(len(k))\n",
-           "if len({v}) > 3:\n    led.on()\n", "led.blink(len({v}), 2)\n", "mon.write(f\"{{len({v})}}\")\n", "q = max({v})\nmon.write(q)\n"]
+           "if len({v}) > 3:\n    led.on()\n", "led.blink(len({v}), 2)\n", "mon.write(f\"{len({v})}\")\n", "q = max({v})\nmon.write(q)\n"]
 SESSION_HEADER = ("from Reduino.Actuators import Led\nfrom Reduino.Communication import SerialMonitor\nfrom Reduino.Utils import sleep\nfrom Reduino.Displays import LCD\n"
                   "led = Led(13)\nmon = SerialMonitor(9600)\nlcd = LCD(rs=12, en=11, d4=5, d5=4, d6=3, d7=2)\nn = 3\n")
 NAMES = ["steps", "xs", "p", "data"]
@@ -354,7 +354,7 @@ def session_scripts(rng, n_lit, n_mut, n_read):
         for u in ("def f({v}):\n    return {v} + 1\ny = f(2)\nmon.write(y)\n", "for {v} in range(3):\n    mon.write({v})\n", "{v}, w = 4, 5\nmon.write({v} + w)\n",
                   "sleep({v})\n", "mon.write({v})\n", "led.blink({v}, 2)\n", "m = len({v})\nmon.write(m)\n", "led.flash_pattern({v})\n", "y = {v} + 1\nmon.write(y)\n",
                   "if {v} > 1:\n    led.on()\n", "while {v} < 3:\n    led.toggle()\n", "{v} += 1\nmon.write({v})\n", "def g():\n    return {v}\nmon.write(g())\n",
-                  "{v} = analog_read(\"A0\")\nmon.write({v} + 1)\n", "led2 = Led({v})\n", "mon.write(f\"{{{v}}}\")\n", "ys = [{v}, 1]\nmon.write(len(ys))\n"):
+                  "{v} = analog_read(\"A0\")\nmon.write({v} + 1)\n", "led2 = Led({v})\n", "mon.write(f\"{{v}}\")\n", "ys = [{v}, 1]\nmon.write(len(ys))\n"):
             users.append(SESSION_HEADER.replace("from Reduino.Displays import LCD\n", "from Reduino.Displays import LCD\nfrom Reduino.Core import analog_read\n") + u.replace("{v}", v))
     out["<names in other roles>"] = {"readers": users, "mutators": definers}
     return out
@@ -375,7 +375,7 @@ BINDERS = [
     "try:\n    {b} = 1\nexcept Exception:\n    {b} = 2\n", "{b} += 1\n", "del {b}\n", "if n > 1:\n    def {b}(a):\n        return a\n", "def outer():\n    def {b}(a):\n        return a\n    return {b}(1)\nmon.write(outer())\n",
     "{b} = [1, 2]\n{b}.append(3)\nmon.write(len({b}))\n", "{b} = lambda a: a\n", "def f(a, {b}=2):\n    return a\nmon.write(f(1))\n", "with open(\"x\") as {b}:\n    pass\n", "@{b}\ndef h():\n    return 1\nmon.write(h())\n",
 ]
-FOLD_USES = ["p = {c}\nmon.write(p)\n", "mon.write({c})\n", "mon.write(f\"v{{{c}}}\")\n", "ys = [{c}, 1]\nmon.write(len(ys))\n", "if {c}:\n    led.on()\n", "def h():\n    return {c}\nmon.write(h())\n",
+FOLD_USES = ["p = {c}\nmon.write(p)\n", "mon.write({c})\n", "mon.write(f\"v{{c}}\")\n", "ys = [{c}, 1]\nmon.write(len(ys))\n", "if {c}:\n    led.on()\n", "def h():\n    return {c}\nmon.write(h())\n",
              "while True:\n    mon.write({c})\n    sleep(50)\n", "lcd.write(0, 0, {c})\n"]
 FOLD_USES_NUM = ["sleep({c})\n", "led.set_brightness({c})\n", "led2 = Led({c})\n", "led.blink({c}, 2)\n", "for i in range({c}):\n    led.toggle()\n", "k = 0\nwhile k < {c}:\n    k = k + 1\n",
                  "q = {c} + 1\nsleep(q)\n", "led.flash_pattern([1, 0], {c})\n"]
